@@ -24,6 +24,7 @@ import (
 	"go/types"
 	"os"
 	"strings"
+	"unicode/utf8"
 
 	"golang.org/x/tools/go/packages"
 )
@@ -1275,6 +1276,32 @@ type c38Model struct {
 	aborted bool
 }
 
+// c38ModelBytes: the bytes of a model slice value.
+func c38ModelBytes(v c38V) []byte {
+	b := make([]byte, 0, v.length())
+	for i := v.lo; i < v.hi; i++ {
+		b = append(b, byte(v.arr.cells[i]))
+	}
+	return b
+}
+
+// c38Chars / c38FromChars: an element as characters (the unit `left`/`right` count in) and back.
+func c38Chars(e []int64) []rune {
+	b := make([]byte, len(e))
+	for i := range e {
+		b[i] = byte(e[i])
+	}
+	return []rune(string(b))
+}
+
+func c38FromChars(r []rune) []int64 {
+	var out []int64
+	for _, b := range []byte(string(r)) {
+		out = append(out, int64(b))
+	}
+	return out
+}
+
 func c38ElemOfLen(l int) []int64 {
 	b := make([]int64, l)
 	for i := range b {
@@ -1353,31 +1380,27 @@ func (c *Ctx) c38ListsHook(m *c38Model) c38Hook {
 		case mx("lang/stdio") + ".ArrayWriter.Close":
 			m.closed++
 			return c38NilV(), true
-		// UTF-8 helpers, exact on the ASCII test alphabet
+		// UTF-8 helpers: the Go standard library is called by the checker on the model bytes
 		case "unicode/utf8.DecodeRune", "unicode/utf8.DecodeRuneInString":
 			v := ev.eval(call.Args[0], env)
 			if v.k != c38Slice {
 				return c38V{}, false
 			}
-			if v.length() == 0 {
-				return tup(c38IntV(0xFFFD), c38IntV(0)), true
-			}
-			return tup(c38IntV(v.arr.cells[v.lo]), c38IntV(1)), true
+			r, size := utf8.DecodeRune(c38ModelBytes(v))
+			return tup(c38IntV(int64(r)), c38IntV(int64(size))), true
 		case "unicode/utf8.DecodeLastRune", "unicode/utf8.DecodeLastRuneInString":
 			v := ev.eval(call.Args[0], env)
 			if v.k != c38Slice {
 				return c38V{}, false
 			}
-			if v.length() == 0 {
-				return tup(c38IntV(0xFFFD), c38IntV(0)), true
-			}
-			return tup(c38IntV(v.arr.cells[v.hi-1]), c38IntV(1)), true
+			r, size := utf8.DecodeLastRune(c38ModelBytes(v))
+			return tup(c38IntV(int64(r)), c38IntV(int64(size))), true
 		case "unicode/utf8.RuneCount", "unicode/utf8.RuneCountInString":
 			v := ev.eval(call.Args[0], env)
 			if v.k != c38Slice {
 				return c38V{}, false
 			}
-			return c38IntV(int64(v.length())), true
+			return c38IntV(int64(utf8.RuneCount(c38ModelBytes(v)))), true
 		}
 		return c38V{}, false
 	}
@@ -1460,10 +1483,19 @@ func (c *Ctx) c38RunBuiltin(pk *packages.Package, fd *ast.FuncDecl, m *c38Model)
 
 func (c *Ctx) c38Bounds(pk *packages.Package, reg map[string]*ast.FuncDecl) {
 	const R = "R38e"
-	c.Rule(R, "small-scope table (element lengths 0..5 over distinct ASCII bytes, count N in -7..7, affix length 0..3; stdio API replaced by contract summaries): `left N` writes e[:min(N,len)] for N>0, e[:max(len+N,0)] for N<0, \"\" for N=0; `right N` writes e[len-min(N,len):] for N>0, e[min(-N,len):] for N<0, \"\" for N=0; `prefix s` writes s·e and `suffix s` writes e·s — one output per input element, in order, without a modelled panic (index/slice out of range)")
+	c.Rule(R, "small-scope table (elements of 0..5 distinct ASCII bytes plus six elements with 2- and 3-byte UTF-8 characters, count N in -7..7 CHARACTERS, affix length 0..3; stdio API replaced by contract summaries): `left N` writes e[:min(N,len)] for N>0, e[:max(len+N,0)] for N<0, \"\" for N=0; `right N` writes e[len-min(N,len):] for N>0, e[min(-N,len):] for N<0, \"\" for N=0; `prefix s` writes s·e and `suffix s` writes e·s — one output per input element, in order, without a modelled panic (index/slice out of range)")
 	var elems [][]int64
 	for l := 0; l <= 5; l++ {
 		elems = append(elems, c38ElemOfLen(l))
+	}
+	// multi-byte characters (2- and 3-byte UTF-8 sequences, alone and mixed with ASCII): the counts are
+	// characters, so the byte offsets differ from the counts
+	for _, t := range []string{"é", "aé", "éa", "日本", "a日éb", "éé日"} {
+		var e []int64
+		for _, b := range []byte(t) {
+			e = append(e, int64(b))
+		}
+		elems = append(elems, e)
 	}
 	minI := func(a, b int) int {
 		if a < b {
@@ -1482,23 +1514,25 @@ func (c *Ctx) c38Bounds(pk *packages.Package, reg map[string]*ast.FuncDecl) {
 		want func(e []int64, n int) []int64
 	}
 	for _, sp := range []spec{
-		{"left", func(e []int64, n int) []int64 {
+		{"left", func(eb []int64, n int) []int64 {
+			e := c38Chars(eb)
 			l := len(e)
 			switch {
 			case n > 0:
-				return e[:minI(n, l)]
+				return c38FromChars(e[:minI(n, l)])
 			case n < 0:
-				return e[:maxI(l+n, 0)]
+				return c38FromChars(e[:maxI(l+n, 0)])
 			}
 			return nil
 		}},
-		{"right", func(e []int64, n int) []int64 {
+		{"right", func(eb []int64, n int) []int64 {
+			e := c38Chars(eb)
 			l := len(e)
 			switch {
 			case n > 0:
-				return e[l-minI(n, l):]
+				return c38FromChars(e[l-minI(n, l):])
 			case n < 0:
-				return e[minI(-n, l):]
+				return c38FromChars(e[minI(-n, l):])
 			}
 			return nil
 		}},
